@@ -832,4 +832,99 @@ theorem checkFieldIndex_ok (fileIds modelIds : List (Nat × Nat)) (j : J) (fi : 
           · simp [hce] at h
       · simp [expect, hne] at h
 
+
+theorem mapM_option_mem {α β : Type} (f : α → Option β) :
+    ∀ (l : List α) (r : List β), l.mapM f = some r → ∀ a ∈ l, ∃ b ∈ r, f a = some b := by
+  intro l
+  induction l with
+  | nil => intro r _ a ha; cases ha
+  | cons x xs ih =>
+    intro r h a ha
+    simp only [List.mapM_cons] at h
+    cases hfx : f x with
+    | none => simp [hfx] at h
+    | some b =>
+      cases hxs : xs.mapM f with
+      | none => simp [hfx, hxs] at h
+      | some bs =>
+        simp [hfx, hxs] at h
+        subst h
+        rcases List.mem_cons.mp ha with rfl | hm
+        · exact ⟨b, by simp, hfx⟩
+        · obtain ⟨b', hb', hfb⟩ := ih bs hxs a hm
+          exact ⟨b', by simp [hb'], hfb⟩
+
+theorem mem_takeWhile_sat {α : Type} (p : α → Bool) : ∀ (l : List α) (a : α), a ∈ l.takeWhile p → p a = true := by
+  intro l
+  induction l with
+  | nil => intro a h; simp at h
+  | cons x xs ih =>
+    intro a h
+    by_cases hx : p x = true
+    · simp only [List.takeWhile_cons, hx, if_true] at h
+      rcases List.mem_cons.mp h with rfl | hm
+      · exact hx
+      · exact ih a hm
+    · simp [hx] at h
+
+/-- ENTRY BY ENTRY: in an accepted entry list every file entry, paired with the model entry at the
+    same position, is a well-formed `[value, id]` pair whose value stands for the model's value -/
+theorem checkEntries_values (name : String) (fi mi : List (Nat × Nat)) :
+    ∀ (fuel i : Nat) (js : List J) (es : FIdx),
+      checkEntries name fi mi fuel i js es = .ok () →
+      ∀ p ∈ js.zip es, ∃ v o, entryOf p.1 = some (v, o) ∧ valueIs v p.2.1 = true := by
+  intro fuel
+  induction fuel with
+  | zero => intro i js es h; simp [checkEntries] at h
+  | succ fuel ih =>
+    intro i js es h
+    match js, es, h with
+    | [], [], _ => intro p hp; simp at hp
+    | [], _ :: _, h => simp [checkEntries] at h
+    | _ :: _, [], h => simp [checkEntries] at h
+    | j :: js, (x, o) :: es, h =>
+      simp only [checkEntries] at h
+      split at h
+      · simp at h
+      · rename_i fe hfe
+        split at h
+        · simp at h
+        · rename_i hlen
+          split at h
+          · simp at h
+          · rename_i hall
+            split at h
+            · simp at h
+            · split at h
+              · simp at h
+              · have hrec := ih _ _ _ h
+                simp only [bne_iff_ne, ne_eq, Decidable.not_not] at hlen
+                simp only [Bool.not_eq_true, Bool.not_eq_false'] at hall
+                have hflen := mapM_option_length _ _ _ hfe
+                have hmem := mapM_option_mem _ _ _ hfe
+                have hpre : List.takeWhile (fun e => e.1 == x) ((x, o) :: es) <+: ((x, o) :: es) :=
+                  List.takeWhile_prefix _
+                have hrun := List.prefix_iff_eq_take.mp hpre
+                generalize hn : (List.takeWhile (fun e => e.1 == x) ((x, o) :: es)).length = n at *
+                intro p hp
+                have hsplit : (j :: js).zip ((x, o) :: es) =
+                    ((j :: js).take n).zip (((x, o) :: es).take n) ++ ((j :: js).drop n).zip (((x, o) :: es).drop n) := by
+                  have h3 : min n ((x, o) :: es).length = n := by
+                    have := congrArg List.length hrun
+                    simp only [List.length_take] at this
+                    omega
+                  rw [← List.zip_append (by simp only [List.length_take] at hflen ⊢; omega),
+                    List.take_append_drop, List.take_append_drop]
+                rw [hsplit] at hp
+                rcases List.mem_append.mp hp with h1 | h2
+                · have hp1 := (List.of_mem_zip h1).1
+                  have hp2 := (List.of_mem_zip h1).2
+                  obtain ⟨b, hb, hfb⟩ := hmem p.1 hp1
+                  have hv := List.all_eq_true.mp hall b hb
+                  rw [← hrun] at hp2
+                  have hx := mem_takeWhile_sat _ _ _ hp2
+                  simp only [beq_iff_eq] at hx
+                  exact ⟨b.1, b.2, hfb, by rw [hx]; exact hv⟩
+                · exact hrec p h2
+
 end Sod.Codec
